@@ -108,6 +108,14 @@ structure Str where
 @[inline] def Str.rs_is_empty {ρ} (t : Str) : M ρ Bool := pure t.b.isEmpty
 @[inline] def Str.rs_is_char_boundary {ρ} (t : Str) (i : Nat) : M ρ Bool := pure (isBoundary t.b i)
 
+/-- `&'static str`: the caller's text and which one it is -/
+structure SStr where
+  sid : Nat
+  b : Bytes
+  deriving DecidableEq, Repr
+instance : Coe SStr Str := ⟨fun t => ⟨t.b⟩⟩
+@[inline] def SStr.rs_len {ρ} (t : SStr) : M ρ Nat := pure t.b.length
+
 /-! ## The three buffers as values -/
 
 /-- an owned `HeapBuffer` that is not (yet) `self`: pointer and length word -/
@@ -155,6 +163,10 @@ def heap_buffer.amortized_growth {ρ} (len additional : Nat) : M ρ Nat := pure 
 
 def InlineBuffer.new {ρ} (t : Str) : M ρ InlineBuf := pure ⟨inlNew t.b⟩
 def InlineBuffer.empty {ρ} : M ρ InlineBuf := pure ⟨inlEmpty⟩
+
+/-- `StaticBuffer::new(text)`: refuses texts whose length does not fit below the tag byte -/
+def StaticBuffer.new {ρ} (t : SStr) : M ρ (Rs StaticBuf) :=
+  pure (if t.b.length > STATIC_MAX_LEN then .err else .ok ⟨t.sid, t.b.length⟩)
 
 /-! ## `Repr`: transmutes, and reading `self` -/
 
